@@ -201,6 +201,12 @@ func Judge(sc *Scenario, mr *ModelRun, out *Outcome) []Finding {
 				}
 			}
 		}
+		if !prepFailed && out.CancelSeq >= 0 && nExec > 0 && effFB(spec) {
+			n := EffBudget(spec)
+			if nExec == n && scr.FirstOK > n && nFB == 0 {
+				add("C02", "fallback-skipped-after-all-attempts:"+k, "node %d (%s, budget %d): all %d attempts were made and failed (the context was cancelled during the run), the fallback is installed, yet it was not invoked", sg.node, k, n, n)
+			}
+		}
 		_ = last
 	}
 	// --- C01: outcome of the run ------------------------------------------------------
